@@ -68,6 +68,7 @@ type replayFile struct {
 	Decoded   any            `json:"decoded,omitempty"`
 	Log       []string       `json:"log,omitempty"`
 	Crashed   bool           `json:"worker_died,omitempty"`
+	Race      bool           `json:"race_build,omitempty"`
 }
 
 // ---------------------------------------------------------------------------------
@@ -140,6 +141,9 @@ func runCheck(cfg *config, spec *engineSpec) int {
 	if perr != nil {
 		die2("cannot build simulator for %s: %v", spec.name, perr)
 	}
+	if w, ok := rc.info["alt_worker"].([]string); ok {
+		rc.altWorker = w
+	}
 	buildS := time.Since(t0).Seconds()
 	fmt.Printf("[%s] built instrumented worker from %s (%s) in %.1fs\n", spec.name, cfg.repo, repoHead(cfg.repo), buildS)
 
@@ -156,9 +160,14 @@ func runCheck(cfg *config, spec *engineSpec) int {
 	}
 	sc := rc.determinism(cfg.seed, nSelf)
 	if !sc.OK {
-		die2("determinism self-check failed: %s", sc.Detail)
+		// The same tape gave different executions: the code under test has concurrency (or
+		// another source of nondeterminism) the simulator does not own. The search still
+		// runs — a violation that a replay confirms is a violation — but a batch that finds
+		// nothing will not be vouched for (exit 2).
+		fmt.Printf("[%s] determinism self-check FAILED: %s\n", spec.name, sc.Detail)
+	} else {
+		fmt.Printf("[%s] determinism self-check: %d tapes x 3 processes (GOMAXPROCS 1/4/16) identical\n", spec.name, nSelf)
 	}
-	fmt.Printf("[%s] determinism self-check: %d tapes x 3 processes (GOMAXPROCS 1/4/16) identical\n", spec.name, nSelf)
 
 	budget := cfg.budget
 	if budget == 0 {
@@ -174,13 +183,22 @@ func runCheck(cfg *config, spec *engineSpec) int {
 		slices := 4
 		for i := 0; i < slices; i++ {
 			d := searchStart.Add(budget * time.Duration(i+1) / time.Duration(slices))
+			// the last slice runs on the -race build when the engine provides one
+			rc.useAlt = i == slices-1 && rc.altWorker != nil
+			if rc.useAlt {
+				fmt.Printf("[%s] slice %d runs on the -race build (auxiliary crash oracle)\n", spec.name, i+1)
+			}
 			rc.search(cfg.seed+uint64(i)*1000003, d, 0)
+			rc.useAlt = false
 			if len(rc.failures) >= 200 {
 				break
 			}
 		}
 	} else {
+		// VERIF_RACE_ONLY=1 (with VERIF_RACE=1): run the quick batch on the -race build
+		rc.useAlt = os.Getenv("VERIF_RACE_ONLY") == "1" && rc.altWorker != nil
 		rc.search(cfg.seed, deadline, 0)
+		rc.useAlt = false
 	}
 	searchS := time.Since(searchStart).Seconds()
 	fmt.Printf("[%s] %d simulated runs in %.1fs (%d non-trivial, %d distinct interleavings, %d distinct states), %d failing, %d worker deaths\n",
@@ -208,7 +226,9 @@ func runCheck(cfg *config, spec *engineSpec) int {
 			return fs[i].Run < fs[j].Run
 		})
 		f := fs[0]
+		rc.useAlt = f.Alt
 		rf := rc.minimise(f, gi < 6)
+		rc.useAlt = false
 		if rf == nil {
 			// did not reproduce in a fresh process: the simulator is not deterministic here
 			die2("failure of run %d (seed %d), %s, did not reproduce on replay", f.Run, f.Seed, k)
@@ -259,6 +279,9 @@ func runCheck(cfg *config, spec *engineSpec) int {
 	}
 	if len(unknown) > 0 {
 		return 1
+	}
+	if !sc.OK {
+		die2("determinism self-check failed and no violation was found: %s", sc.Detail)
 	}
 	// sources of nondeterminism the simulator does not own, or an instrumented build that
 	// disagrees with the plain one: the machinery will not vouch for this tree.
@@ -365,7 +388,7 @@ func (rc *runCtx) minimise(f *failure, shrink bool) *replayFile {
 	}
 	rf := &replayFile{Property: rc.spec.property, Engine: rc.spec.name, Seed: f.Seed, Run: f.Run, RepoHead: repoHead(rc.cfg.repo),
 		Tape: sh.best, Violation: final.Res.Violation, LogSHA: final.Res.LogHash, Decoded: final.Res.Decoded, Log: final.Res.LogLines,
-		Crashed: final.Crashed,
+		Crashed: final.Crashed, Race: f.Alt,
 		Shrink:  map[string]any{"tape_len_before": before, "tape_len_after": len(sh.best), "attempts": sh.attempts}}
 	if !stable {
 		rf.Shrink["unstable"] = fmt.Sprintf("replays of this tape do not all agree (search: %s; replays: %v): the code under test has concurrency inside one simulated step, which the simulator does not own; the violation recorded here is the one the last replay showed", f.key(), seenKeys)
@@ -387,9 +410,13 @@ func runReplay(cfg *config, path string) int {
 		die2("replay file names unknown engine %q", rf.Engine)
 	}
 	rc := newRunCtx(cfg, spec)
+	cfg.race = cfg.race || rf.Race
 	rc.worker, rc.env, rc.info, err = spec.prepare(cfg)
 	if err != nil {
 		die2("cannot build simulator for %s: %v", spec.name, err)
+	}
+	if w, ok := rc.info["alt_worker"].([]string); ok && rf.Race {
+		rc.altWorker, rc.useAlt = w, true
 	}
 	s := rc.newServer(1)
 	r := s.eval(rf.Tape, true, 600*time.Second)
